@@ -772,11 +772,15 @@ def object_case(tdir, nc, n, cs, ns0, f0, ops, D):
             if ns0 == n and tuple(sr.shape) != (n, nc):
                 obs["problems"].append(("object_shape", "%s: shape %s, recording is %s" % (tag, tuple(sr.shape), (n, nc))))
             if int(sr.nbytes) != Path(sr.file_bin).stat().st_size:
-                obs["stale_nbytes"] += 1
+                obs["stale_nbytes"] += 1        # allowed only while pointing at x.cbin (nothing reads it there)
+                if fcode == 1:
+                    obs["problems"].append(("object_nbytes", "%s: nbytes %d is not the size of x.bin" % (tag, sr.nbytes)))
+            if ns0 == n and warned:
+                obs["problems"].append(("object_warning", "%s: size-mismatch warning although meta data and file agree" % tag))
             if op == 0 and raised and ns0 == n:
                 obs["problems"].append(("object_open", "%s: open() raised" % tag))
             if rk == 3 and sr.is_open:
-                obs["problems"].append(("stale_raw", "%s: is_open is True, file_bin is %s, but the raw reader is closed" % (
+                obs["problems"].append(("object_raw_closed", "%s: is_open is True, file_bin is %s, but the raw reader is closed" % (
                     tag, Path(sr.file_bin).suffix)))
             elif rk in (1, 2) and tuple(sr.shape) == (n, nc):
                 try:
